@@ -54,6 +54,9 @@ type Env interface {
 	Mutate(fn func(ctx sdk.Context))
 	// DeliverMulti delivers one transaction carrying several messages: all of them take effect or none does
 	DeliverMulti(msgs []sdk.Msg) TxResult
+	// DeliverUnsigned runs one message the way a message dispatched by a contract or another module account is run: routed
+	// to its handler on a branch of the block's state, kept on success - no signature, because the sender holds no key
+	DeliverUnsigned(msg sdk.Msg) TxResult
 	// SetBlockGas sets the gas already consumed in the current block by other transactions
 	// (seam A: directly; seam B: ignored — real gas accumulates there).
 	SetBlockGas(g uint64)
@@ -132,6 +135,38 @@ func (e *EnvA) Deliver(msg sdk.Msg) (res TxResult) {
 		out.Events = r.Events
 	}
 	return out
+}
+
+func (e *EnvA) DeliverUnsigned(msg sdk.Msg) TxResult { return e.Deliver(msg) }
+
+func (e *EnvB) DeliverUnsigned(msg sdk.Msg) (res TxResult) {
+	if err := msg.ValidateBasic(); err != nil {
+		return TxResult{Err: err, Stage: "validate", Code: 1}
+	}
+	h := e.w.App.MsgServiceRouter().Handler(msg)
+	if h == nil {
+		return TxResult{Err: fmt.Errorf("no handler for %s", sdk.MsgTypeURL(msg)), Stage: "route", Code: 1}
+	}
+	e.Mutate(func(ctx sdk.Context) {
+		cctx, write := ctx.CacheContext()
+		cctx = cctx.WithEventManager(sdk.NewEventManager())
+		defer func() {
+			if r := recover(); r != nil {
+				res = TxResult{Err: fmt.Errorf("panic: %v", r), Panicked: true, Stage: "handler", Code: 111222}
+			}
+		}()
+		r, err := h(cctx, msg)
+		if err != nil {
+			res = TxResult{Err: err, Stage: "handler", Code: 1}
+			return
+		}
+		write()
+		if r != nil {
+			res.RespData, res.Events = r.Data, r.Events
+		}
+		e.Obs = append(e.Obs, fmt.Sprintf("unsigned-msg h=%d %s data=%x", e.height, sdk.MsgTypeURL(msg), res.RespData))
+	})
+	return res
 }
 
 func (e *EnvA) DeliverMulti(msgs []sdk.Msg) (res TxResult) {
